@@ -15,6 +15,7 @@
 (* ("ACC id") iff one of them ends in exactly the observed outcome and     *)
 (* output-file set.  "NOTBROKEN p rule" = the program Python produced does *)
 (* not break the rule the TLC case stands for (machinery error).           *)
+(* For a two-edit combination one of its two rules has to hold.            *)
 (***************************************************************************)
 EXTENDS Pipeline, Json
 
@@ -68,9 +69,13 @@ Matches(o) == /\ outcome.exit = o.exit /\ outcome.diag = o.diag /\ outcome.crash
 
 Accepted == (ri # 0 /\ stage = "done" /\ Matches(RunRec.obs)) => PrintT("ACC " \o ToString(RunRec.id))
 Judged == (ri # 0 /\ stage = "args") => PrintT("RUN " \o ToString(RunRec.id) \o (IF broken THEN " broken" ELSE " unbroken"))
-\* the rule a case stands for must hold on the program that was really rendered
+\* the rule a case stands for must hold on the program that was really rendered; of the rules of a
+\* two-edit combination at least one (the second edit may mask the first: a constant used as a type
+\* stops being a non-type when the other edit defines a struct of the same name)
 DeclaredHold == (pi # 0 /\ ri = 0) =>
-                  \A r \in Declared : r \in held \/ PrintT("NOTBROKEN " \o ToString(pi) \o " " \o r)
+                  IF Cardinality(Declared) <= 1
+                  THEN \A r \in Declared : r \in held \/ PrintT("NOTBROKEN " \o ToString(pi) \o " " \o r)
+                  ELSE held # {} \/ PrintT("NOTBROKEN " \o ToString(pi) \o " all")
 \* the machine keeps the statement in every reachable state
 Statement == ri # 0 => AInvariant(broken, expected)
 TInvariants == Accepted /\ Judged /\ DeclaredHold /\ Statement
